@@ -17,7 +17,7 @@ import (
 func init() {
 	register(stream{
 		name: "meta",
-		rule: "key validation (nil, empty, 1–64 bytes, all-zero, one non-zero byte) against the model; plaintexts (empty, short, long, binary, invalid UTF-8) × key pairs: AddEncrypted then GetEncryptedString/GetEncryptedBytes, directly and after the token is sealed and unsealed (delegation and invocation, DAG-CBOR and DAG-JSON), with the right key, a wrong key, and EVERY single-bit modification of the stored value — the decryption verdict of x/crypto's secretbox.Open computed by the harness is given to the model as an oracle; stored length = plaintext + 40; two encryptions of one value differ; crypto/rand.Reader replaced by a source that fails after 0…30 bytes (encryption must fail unless a whole nonce was drawn, and store the drawn nonce); the plaintext occurs neither in the stored value nor in the sealed token. Added later: the key rules through the four WithEncryptedMeta* token options; one option value used for two tokens (ciphertexts must differ); an encrypted value under an existing key (refused or readable, never dropped silently); a plaintext returned by GetEncryptedBytes stays what it was while other values are read. Plaintexts of 4095…1 MiB bytes (around 4 KiB and 64 KiB) round-trip; one key BUFFER that holds key A, is overwritten with key B and then wiped: each call uses the bytes the buffer holds at that moment. Non-trivial = every case. Distinct = distinct protocol lines.",
+		rule: "key validation (nil, empty, 1–64 bytes, all-zero, one non-zero byte) against the model; plaintexts (empty, short, long, binary, invalid UTF-8) × key pairs: AddEncrypted then GetEncryptedString/GetEncryptedBytes, directly and after the token is sealed and unsealed (delegation and invocation, DAG-CBOR and DAG-JSON), with the right key, a wrong key, and EVERY single-bit modification of the stored value — the decryption verdict of x/crypto's secretbox.Open computed by the harness is given to the model as an oracle; stored length = plaintext + 40; two encryptions of one value differ; crypto/rand.Reader replaced by a source that fails after 0…30 bytes (encryption must fail unless a whole nonce was drawn, and store the drawn nonce); the plaintext occurs neither in the stored value nor in the sealed token. Added later: the key rules through the four WithEncryptedMeta* token options; one option value used for two tokens (ciphertexts must differ); an encrypted value under an existing key (refused or readable, never dropped silently); a plaintext returned by GetEncryptedBytes stays what it was while other values are read. Plaintexts of 4095…1 MiB bytes (around 4 KiB and 64 KiB) round-trip; one key BUFFER that holds key A, is overwritten with key B and then wiped: each call uses the bytes the buffer holds at that moment. Values encrypted under K are refused, by all four getters, to keys of another length that contain K or are contained in it, and to K changed in its first or last byte only. Non-trivial = every case. Distinct = distinct protocol lines.",
 		run:  runMetaStream,
 		eval: evalMeta,
 		cmp: func(line, g, m string) string {
@@ -155,6 +155,8 @@ func evalMeta(line string) (out string, rd string) {
 		return metaSizeRoundTrip(n), rd
 	case "go.meta.keybuffer":
 		return metaKeyBuffer(), rd
+	case "go.meta.relatedkeys":
+		return metaRelatedKeys(), rd
 	}
 	return "bad-line", rd
 }
@@ -463,6 +465,7 @@ func runMetaStream(c *ctx) error {
 		c.emit(fmt.Sprintf("go.meta.size %d", n), "meta.roundtrip", true, "roundtrip-size")
 	}
 	c.emit("go.meta.keybuffer 0", "meta.roundtrip", true, "key-buffer")
+	c.emit("go.meta.relatedkeys 0", "meta.roundtrip", true, "related-keys")
 	// every single-bit modification of stored values, and reads with wrong / malformed keys
 	for i, pt := range metaPlain {
 		if len(pt) > 100 && !c.thoro {
@@ -500,4 +503,64 @@ func runMetaStream(c *ctx) error {
 		get(key, append(append([]byte(nil), stored...), 0), "extended")
 	}
 	return nil
+}
+
+// metaRelatedKeys: values encrypted under a valid key K must not be readable — by any getter — with a key of another
+// length that merely CONTAINS K or is contained in it (K plus a byte, K twice, K without its last zero byte, K with a
+// zero byte in front), nor with K changed in its first or last byte only.
+func metaRelatedKeys() string {
+	for round := 0; round < 4; round++ {
+		k := bytes.Repeat([]byte{byte(0x11 * (round + 1))}, 32)
+		k[0], k[31] = byte(round+1), 0 // the last byte zero: cutting it off loses no non-zero byte
+		if round%2 == 1 {
+			k[31] = 0x7f
+		}
+		m := meta.NewMeta()
+		if err := m.AddEncrypted("s", "a secret string", k); err != nil {
+			return "AddEncrypted: " + err.Error()
+		}
+		if err := m.AddEncrypted("b", []byte("secret bytes"), k); err != nil {
+			return "AddEncrypted: " + err.Error()
+		}
+		if err := m.AddEncrypted("e", "", k); err != nil {
+			return "AddEncrypted: " + err.Error()
+		}
+		flipFirst, flipLast := append([]byte(nil), k...), append([]byte(nil), k...)
+		flipFirst[0] ^= 1
+		flipLast[31] ^= 0x80
+		others := map[string][]byte{"K+1 byte": append(append([]byte(nil), k...), 0), "K+1 byte (non-zero)": append(append([]byte(nil), k...), 9), "K twice": append(append([]byte(nil), k...), k...),
+			"K without its last byte": k[:31], "0 then K": append([]byte{0}, k...), "K, first byte changed": flipFirst, "K, last byte changed": flipLast, "first 16 bytes of K": k[:16]}
+		for name, o := range others {
+			for _, key := range []string{"s", "b", "e"} {
+				if v, err := m.GetEncryptedBytes(key, o); err == nil {
+					return fmt.Sprintf("GetEncryptedBytes(%q) with %s (%d bytes) returns %q", key, name, len(o), v)
+				}
+				if v, err := m.GetEncryptedString(key, o); err == nil {
+					return fmt.Sprintf("GetEncryptedString(%q) with %s (%d bytes) returns %q", key, name, len(o), v)
+				}
+				if v, err := m.ReadOnly().GetEncryptedBytes(key, o); err == nil {
+					return fmt.Sprintf("ReadOnly.GetEncryptedBytes(%q) with %s (%d bytes) returns %q", key, name, len(o), v)
+				}
+				if v, err := m.ReadOnly().GetEncryptedString(key, o); err == nil {
+					return fmt.Sprintf("ReadOnly.GetEncryptedString(%q) with %s (%d bytes) returns %q", key, name, len(o), v)
+				}
+			}
+			if len(o) != 32 {
+				if err := meta.NewMeta().AddEncrypted("x", "v", o); err == nil {
+					return fmt.Sprintf("AddEncrypted accepts %s (%d bytes)", name, len(o))
+				}
+			}
+		}
+		// and K itself still reads all three
+		if v, err := m.GetEncryptedString("s", k); err != nil || v != "a secret string" {
+			return "the right key no longer reads the string"
+		}
+		if v, err := m.GetEncryptedBytes("b", k); err != nil || string(v) != "secret bytes" {
+			return "the right key no longer reads the bytes"
+		}
+		if v, err := m.GetEncryptedString("e", k); err != nil || v != "" {
+			return "the right key no longer reads the empty string"
+		}
+	}
+	return "ok"
 }
